@@ -74,7 +74,8 @@ LibFormTable == <<
   <<{"adcx","adox","movzx","xchg"} \cup Cmovs, {"rr","rm"}>>,
   <<{"imul"}, {"rri","rmi","rr","rm","r"}>>,
   <<{"lea"}, {"rm"}>>,
-  <<{"dec","inc","neg","not"} \cup Setccs \cup {"clflush","prefetchnta","prefetcht0","prefetcht1","prefetcht2"}, {"r","m"}>>,
+  <<{"dec","inc","neg","not"} \cup Setccs, {"r","m"}>>,
+  <<{"clflush","prefetchnta","prefetcht0","prefetcht1","prefetcht2"}, {"m"}>>,
   <<{"sal","sar","shl","shr"}, {"mi","ri","mr","rr"}>>,
   <<{"rcr"}, {"mi","ri"}>>, <<{"ror"}, {"ri"}>>,
   <<{"shld"}, {"rri","mri","rrr","mrr"}>>, <<{"shrd"}, {"mri","rri"}>>,
